@@ -353,11 +353,17 @@ def fit_world(args, scratch):
 # ------------------------------------------------------------------------------------------
 # C06: combine_DL on synthetic result tables
 # ------------------------------------------------------------------------------------------
-def gen_table(rng):
+def gen_table(rng, big=False):
     U = rng.randint(2, 40)
     N = rng.randint(max(U, 2), 4 * U)
+    if big:
+        # more than 1000 ranked uniques with a flat description-length landscape
+        U = rng.randint(1001, 1300)
+        N = rng.randint(U, U + 400)
     idx = [rng.randrange(U) for _ in range(N)]
     mode = rng.random()
+    if big:
+        mode = 0.0
     if mode < 0.4:            # surjection: every unique has a variant
         for u in range(U):
             idx[rng.randrange(N)] = u
@@ -379,11 +385,15 @@ def gen_table(rng):
             nll = float('%.7e' % (b * (1 + rng.choice([1, 2, 5, -1, -3]) * 10.0 ** rng.choice([-7, -6])))) if b else 1e-7
         elif c < 0.6:
             nll = rng.choice(pal)
+        elif big:
+            nll = round(rng.uniform(5, 9), 5)
         else:
             nll = round(rng.uniform(0, 20), rng.choice([0, 1, 3]))
         if nll == nll and nll != float('inf'):
             prev_nll.append(nll)
         cl = rng.choice([0.0, 0.5, 1.0, 2.0, float('inf'), float('nan'), round(rng.uniform(-2, 6), 2)])
+        if big and rng.random() < 0.97:
+            cl = rng.choice([0.0, 0.5, 1.0, 2.0, round(rng.uniform(-1, 2), 2)])      # (almost) everything finite: > 1000 ranked rows
         rows.append([nll, cl, float(idx[i])] + [rng.choice([0.0, round(rng.uniform(-3, 3), 4)]) for _ in range(npar)])
     aif = [rng.choice([1.0986123, 2.1972246, 3.2958369, 5.4930614, 2.0]) for _ in range(N)]
     return dict(U=U, N=N, rows=rows, aif=aif, idx=idx)
@@ -395,8 +405,11 @@ def combine_world(args, scratch):
     os.makedirs(scratch, exist_ok=True)
     make_farm(scratch, args.get('canary'), args.get('repo'))
     comp = int(args.get('compl', 3))
-    case = gen_table(random.Random(int(args['table_seed'])))
+    case = gen_table(random.Random(int(args['table_seed'])), big=bool(args.get('big')))
     out = {}
+    pf = args.get('prefixes') or {}
+    fnprior = pf.get('fnprior_prefix', 'aifeyn_')
+    final_prefix = pf.get('final_prefix', 'final_')
 
     def write_inputs(data_dir):
         lib = libdir(scratch, 'synth', comp)
@@ -405,7 +418,7 @@ def combine_world(args, scratch):
             f.write(''.join('u%d(x)\n' % i for i in range(case['U'])))
         with open('%s/all_equations_%d.txt' % (lib, comp), 'w') as f:
             f.write(''.join('f%d(x)\n' % i for i in range(case['N'])))
-        np.savetxt('%s/aifeyn_%d.txt' % (lib, comp), np.array(case['aif']))
+        np.savetxt('%s/%s%d.txt' % (lib, fnprior, comp), np.array(case['aif']))
         od = '%s/%s/fitting/output/output_run' % (scratch, data_dir)
         os.makedirs(od)
         os.makedirs('%s/%s/fitting/output/partial_run' % (scratch, data_dir))
@@ -413,15 +426,15 @@ def combine_world(args, scratch):
         np.savetxt('%s/%s/data.txt' % (scratch, data_dir), np.array([[1., 1., 1.], [2., 2., 1.]]))
         return lib, od
     lib, od = write_inputs('user')
-    like = dict(name='L', cls='Gauss', data_file='data.txt', run_name='run', data_dir='user', fn_set='synth')
+    like = dict(name='L', cls='Gauss', data_file='data.txt', run_name='run', data_dir='user', fn_set='synth', attrs=pf)
     prog = [['like', like], ['fit', dict(stage='combine', comp=comp, like='L')]]
     res = run_world(world_spec(args, prog), scratch)
     out = slim(res, keep_choices=bool(args.get('keep_choices', True)))
     probs, stats = [], {}
     if res['violation'] is None and res['diverged'] is None:
-        uniq, allf, aif, rows = rank_model.parse_inputs(lib, od, comp)
+        uniq, allf, aif, rows = rank_model.parse_inputs(lib, od, comp, fnprior)
         try:
-            probs, stats = rank_model.check_final('%s/final_%d.dat' % (od, comp), uniq, allf, aif, rows)
+            probs, stats = rank_model.check_final('%s/%s%d.dat' % (od, final_prefix, comp), uniq, allf, aif, rows)
         except FileNotFoundError as e:
             probs = [('missing-output', os.path.basename(str(e.filename)))]
         left = sorted(os.listdir(os.path.dirname(od) + '/partial_run'))
@@ -437,7 +450,7 @@ def combine_world(args, scratch):
                 probs.append(('cmp-world-failed', res2['violation']['sig']))
             else:
                 h1, h2 = file_hashes(od), file_hashes(od2)
-                f = 'final_%d.dat' % comp
+                f = '%s%d.dat' % (final_prefix, comp)
                 if h1.get(f) != h2.get(f):
                     probs.append(('differs-from-1-rank-run', f))
                 stats['cmp'] = 1
